@@ -226,7 +226,7 @@ func runWriterHistory(c *WriterCase, cv *cov, hooks *writerHooks) (v *evid.Viola
 						v = evid.Failf("step %d Flush after a sink failure returned err=%v, want the sink error", step, err)
 						return
 					}
-					if sink.After > 0 || len(sink.Writes) != before {
+					if len(sink.Writes) != before {
 						v = evid.Failf("step %d Flush after a sink failure wrote to the sink again", step)
 						return
 					}
